@@ -233,6 +233,7 @@ struct Ctx
 };
 
 Ctx* g = nullptr;
+const char* leftover_prop(Ctx& x);
 
 void
 reporter(int, const char*, int, const char*, const char*)
@@ -810,10 +811,18 @@ finish_acquisition(Ctx& x, bool by_abort, const char* how)
                 x.c.fail("C06", "map-fails-after-stop", how, "stream %d: acquire_map_read fails after %s returned", s, how);
             else {
                 if (b != e)
-                    x.c.fail("C06", "data-after-stop", how, "stream %d: acquire_map_read still returns %td bytes after %s returned", s, (uint8_t*)e - (uint8_t*)b, how);
+                    x.c.fail(leftover_prop(x), "data-after-stop", how, "stream %d: acquire_map_read still returns %td bytes after %s returned", s, (uint8_t*)e - (uint8_t*)b, how);
                 acquire_unmap_read(x.rt, (uint32_t)s, (size_t)((uint8_t*)e - (uint8_t*)b));
             }
         }
+}
+
+// Leftovers of an aborted acquisition that reach the monitoring client are C06 violations and, when
+// the run is made on behalf of C07 ("no leftovers from the aborted one"), C07 violations.
+const char*
+leftover_prop(Ctx& x)
+{
+    return (vh_focus && !strcmp(vh_focus, "C07") && !strcmp(x.taint, "C07")) ? "C07" : "C06";
 }
 
 void
@@ -862,7 +871,7 @@ do_map(Ctx& x, int s)
     for (const VideoFrame* f : frames)
         m.frame_sizes.push_back(f->bytes_of_frame);
     if (!x.running) {
-        x.c.fail("C06", "data-while-idle", "stale", "stream %d: the monitor received %zu frames although no acquisition is running", s, frames.size());
+        x.c.fail(leftover_prop(x), "data-while-idle", "stale", "stream %d: the monitor received %zu frames although no acquisition is running", s, frames.size());
         return;
     }
     AcqRec& a = x.acqs[acq];
@@ -873,7 +882,7 @@ do_map(Ctx& x, int s)
             int fr = (int)((f->timestamps.hardware >> 32) & 0xffffff);
             int fc = (int)(f->timestamps.hardware >> 56) - 1;
             if (fc != a.cfg.cam || fr != a.cam_run) {
-                x.c.fail("C06", "foreign-frame", m.frames_seen == 0 && first ? "monitor-first-registered-in-later-acquisition" : fr < a.cam_run ? "earlier-acquisition" : "other",
+                x.c.fail(leftover_prop(x), "foreign-frame", m.frames_seen == 0 && first ? "monitor-first-registered-in-later-acquisition" : fr < a.cam_run ? "earlier-acquisition" : "other",
                               "stream %d: the monitor was handed a frame of camera %d run %d (frame id %llu) during acquisition %d (camera %d run %d)", s, fc, fr,
                               (unsigned long long)f->frame_id, x.acq_index, a.cfg.cam, a.cam_run);
                 return;
